@@ -913,6 +913,8 @@ def run(ck: Checker) -> None:
     ck.guard("R-XP-ELEMENTS", lambda: r_empty_step(ck))
     ck.guard("R-XP-ELEMENTS", lambda: r_step_part_kinds(ck))
     ck.guard("R-XP-SHARED", lambda: r_xp_cache_key(ck))
+    from . import state_rules as S7b
+    ck.guard("R-XP-SHARED", lambda: S7b.r_memo_of_live_view(ck, "R-XP-SHARED", (XP, "pyoak.match.helpers")))
     from . import state_rules as S
     ck.guard("R-XP-SHARED", lambda: S.r_stateless(ck, "R-XP-SHARED", XP, "ASTXpath", ("match", "findall"), "a compiled xpath is interned per text and used for any tree"))
     ck.guard("R-XP-SHARED", lambda: S.r_stateless(ck, "R-XP-SHARED", XP, "XPathTransformer", None, "one transformer instance serves every parse, also after a failed one"))
